@@ -24,7 +24,8 @@ func init() {
 		Explanation: "Decides the critical-section shape of reference updates, not linearizability: (no-mutation-before-lock) in every dotgit function that takes a billy.Locker lock on a file, the file is not opened with O_TRUNC and " +
 			"no Write/Truncate on it is reachable before the lock (paths on which the filesystem offers no Locker are excluded); (cas-critical-section) in setRefRwfs the compare (checkReferenceAndTruncate) and the write happen after the lock with " +
 			"no Unlock/Close in between, the lock is released only by the deferred Close, and checkReferenceAndTruncate truncates only on the hash-equal edge and returns ErrReferenceHasChanged otherwise; " +
-			"(publish-by-rename) reference content is replaced only by renaming a completely written file — today it is rewritten in place, which is recorded as a known finding. Not decided: interleavings, flock semantics across processes.",
+			"(publish-by-rename) reference content is replaced only by renaming a completely written file — today it is rewritten in place, which is recorded as a known finding; (empty-loose-ref-agreement) every function that reads a loose reference file other than HEAD either tests for ErrEmptyRefFile or never returns the read's error: the empty file is the placeholder a " +
+			"compare-and-set creates before comparing and leaves behind when it refuses. Not decided: interleavings, flock semantics across processes.",
 		Assumptions: []string{"billy.Locker.Lock is an exclusive advisory lock honoured by every writer"},
 		Run:         runC16,
 	})
@@ -276,6 +277,68 @@ func runC16(c *Ctx) {
 	info := pk.TypesInfo
 	oTrunc := p.importedPkg("os").Scope().Lookup("O_TRUNC")
 	lockQ := billyPath + ".Locker.Lock"
+
+	// empty-loose-ref-agreement: a compare-and-set creates the loose file before comparing, so an empty loose file is
+	// a state every reader meets (during an update, and for good after a refused one). Every function that reads a
+	// loose reference file other than HEAD either tests for ErrEmptyRefFile or never returns the read's error.
+	const r0 = "empty-loose-ref-agreement"
+	emptyErr := p.lookupObj(dotgitShort, "ErrEmptyRefFile")
+	nReaders := 0
+	for _, fi := range p.FuncsIn(dotgitShort) {
+		if fi.Decl.Body == nil || p.isTestFile(fi.Decl.Pos()) || fi.Obj.Name() == "readReferenceFile" || fi.Obj.Name() == "readReferenceFrom" {
+			continue
+		}
+		var errObjs []types.Object
+		isHEAD := true
+		ast.Inspect(fi.Decl.Body, func(n ast.Node) bool {
+			as, ok := n.(*ast.AssignStmt)
+			if !ok || len(as.Rhs) != 1 || len(as.Lhs) != 2 {
+				return true
+			}
+			call, ok := unparen(as.Rhs[0]).(*ast.CallExpr)
+			if !ok {
+				return true
+			}
+			fn := Callee(info, call)
+			if fn == nil || (fn.Name() != "readReferenceFile" && fn.Name() != "readReferenceFrom") || len(call.Args) != 2 {
+				return true
+			}
+			if constStr(info, call.Args[1]) != "HEAD" {
+				isHEAD = false
+			}
+			if o := objOf(info, as.Lhs[1]); o != nil {
+				errObjs = append(errObjs, o)
+			}
+			return true
+		})
+		if len(errObjs) == 0 || isHEAD {
+			continue
+		}
+		nReaders++
+		c.Analysed(fi)
+		handles := emptyErr != nil && usesObj(info, fi.Decl.Body, emptyErr)
+		escapes := false
+		var at token.Pos
+		ast.Inspect(fi.Decl.Body, func(n ast.Node) bool {
+			r, ok := n.(*ast.ReturnStmt)
+			if !ok || len(r.Results) == 0 {
+				return true
+			}
+			for _, eo := range errObjs {
+				if usesObj(info, r.Results[len(r.Results)-1], eo) {
+					escapes, at = true, r.Pos()
+				}
+			}
+			return true
+		})
+		if handles || !escapes {
+			c.Hold(r0, fi.Name(), fi.Decl.Pos(), orStr(ifStr(handles, "tests for ErrEmptyRefFile"), "never returns the error of the loose read (falls back)"))
+		} else {
+			c.Violate(r0, fi.Name(), at, "returns the error of reading a loose reference file without treating the empty file as absent: after a refused compare-and-set on a packed reference the empty placeholder makes this operation fail")
+		}
+	}
+	c.Check(nReaders >= 3, r0, dotgitShort+":loose-readers", 0, itoa(nReaders)+" readers of loose reference files examined")
+
 	const r1 = "no-mutation-before-lock"
 	for _, fi := range p.FuncsIn(dotgitShort) {
 		if fi.Decl.Body == nil || p.isTestFile(fi.Decl.Pos()) {
